@@ -408,6 +408,12 @@ Theorem C09_supercell_repeat_invariance :
   rankZ (voltages (potentials n' E') E') = rankZ (voltages (potentials n E) E).
 Proof. exact supercell_repeat_rankZ_nat. Qed.
 Print Assumptions C09_supercell_repeat_invariance.
+(* in the property's family (GF(2) rank = integer rank on both presentations) the whole answer of the specification agrees *)
+Theorem C09_supercell_spec_in_family :
+  forall n n' p E E' r0 r1 r2 r r2' rz', 0 < r0 -> 0 < r1 -> 0 < r2 -> cover_repeat_b n n' p E E' r0 r1 r2 = true ->
+  dim_spec n p E = Some (r, r) -> dim_spec n' p E' = Some (r2', rz') -> r2' = rz' -> dim_spec n' p E' = dim_spec n p E.
+Proof. exact supercell_dim_spec_family. Qed.
+Print Assumptions C09_supercell_spec_in_family.
 Example C09_supercell_example :
   let p := (true, false, false) in
   let E := [(0, 1, (0, 0, 0)%Z); (1, 0, (1, 0, 0)%Z)] in
